@@ -145,7 +145,7 @@ func runC06(args []string) error {
 	r := rf.rng()
 	n := rf.count(400, 8000)
 	sum := &Summary{Engine: "c06", Seed: rf.Seed,
-		Rule: "random scenarios over the real logreader.Simple, logreader.Cached (cache sizes 1-12) and regattaserver.LogServer.Replicate on a contract-faithful fake of dragonboat's log reader: logs of encoded/empty/config-change entries with sizes skewed around the message-size limit, appends, compactions (with cache invalidation), query sequences with every start index in 1..applied+2 shaping the cache, end of range always applied+1 with applied growing; oracles: answer non-empty, consecutive from the requested index, own indices, none beyond applied, cached answer a prefix of the uncut simple answer, stream = log entries F..applied ended by the up-to-date message; distinct = distinct scenarios; non-trivial = a cache hit that needed a prepend or append read and an entry at least as large as the limit"}
+		Rule: "random scenarios over the real logreader.Simple, logreader.Cached (cache sizes 1-12) and regattaserver.LogServer.Replicate on a contract-faithful fake of dragonboat's log reader: logs of encoded/empty/config-change entries with sizes skewed around the message-size limit, appends, compactions (with cache invalidation; also with the invalidation delivered as dragonboat's compaction events through a real storage.Engine's event listener), query sequences with every start index in 1..applied+2 shaping the cache, end of range always applied+1 with applied growing; oracles: answer non-empty, consecutive from the requested index, own indices, none beyond applied, cached answer a prefix of the uncut simple answer, stream = log entries F..applied ended by the up-to-date message; distinct = distinct scenarios; non-trivial = a cache hit that needed a prepend or append read and an entry at least as large as the limit"}
 	cf := &CasesFile{Requires: []string{"Model.Bytes", "Model.Obs", "Model.LogReader", "Run.C06Run"}, CaseType: "c06case", Check: "c06_check", Show: "c06_model"}
 	hq := sum.hist("queries")
 	ctx := context.Background()
@@ -178,6 +178,13 @@ func runC06(args []string) error {
 					pay = 1000 + idx
 					sz := pick(r, []int{1, 10, 30, 80, 300, 900})
 					cmd := gCmd{Kind: regattapb.Command_PUT, K: []byte(fmt.Sprintf("k%d", pay)), V: make([]byte, sz)}
+					if r.Intn(4) == 0 {
+						// a command that was itself replicated (a chained follower promoted to leader) or a reset marker
+						// carries a leader index of its own in the payload: the stream must relabel it
+						li := uint64(r.Intn(3)) * 7
+						cmd.Leader = &li
+						hq.Inc("payload carrying its own leader index")
+					}
 					_, bts := wireNormal(cmd)
 					e.Cmd = append([]byte{0}, bts...)
 				}
@@ -374,6 +381,9 @@ func runC06(args []string) error {
 		}
 	}
 	sum.Evaluations = n
+	if err := runC06EngineEvents(sum); err != nil {
+		return err
+	}
 	if len(sum.Samples) == 0 {
 		sum.Samples = append(sum.Samples, cf.Descr[0])
 	}
